@@ -159,9 +159,10 @@ def _known_skip(db):
     return False
 
 
-def edits(D, first=-1, K=1, thorough_elements=False):
+def edits(D, first=-1, K=1, thorough_elements=False, second=None):
+    """second: optional list of edit codes the second edit is drawn from (thorough tier, D=3: keeps the history count affordable)"""
     n = len(EDITS)
-    args = [(f'o{i}', IntRange(0, n - 1)) for i in range(D) if not (i == 0 and first >= 0)] + hole_args('n', K, NAME)
+    args = [(f'o{i}', IntRange(0, (len(second) if (second and i == 1) else n) - 1)) for i in range(D) if not (i == 0 and first >= 0)] + hole_args('n', K, NAME)
 
     def run(a):
         db = _base()
@@ -172,6 +173,8 @@ def edits(D, first=-1, K=1, thorough_elements=False):
         idx = ['ix1', 'hash']
         for step in range(D):
             code = first if (step == 0 and first >= 0) else a[f'o{step}']
+            if second and step == 1:
+                code = second[code]
             seq.append(EDITS[code])
             if step > 0:
                 db.sql                   # a rendering between edits must leave nothing behind (cached orders, join tables ...)
@@ -222,14 +225,24 @@ def edits(D, first=-1, K=1, thorough_elements=False):
         return {'edits': seq, 'name_fragment': ''.join(chr(a[f'n{i}']) for i in range(K)), 'dbml_edited': db.dbml, 'dbml_fresh': fresh.dbml,
                 'sql_equal': db.sql == fresh.sql}
 
-    return Harness(body, args, describe=describe, bounds={'D': D, 'edits': EDITS, 'K': K})
+    return Harness(body, args, describe=describe, bounds={'D': D, 'edits': EDITS, 'K': K, 'second_edit_from': [EDITS[c] for c in second] if second else 'all'})
 
 
 def instances(tier):
     out = []
     quick = tier == 'quick'
-    D = 2 if quick else 3
+    if quick:
+        for f in range(len(EDITS)):
+            out.append({'name': f'edits/D2/first_{EDITS[f]}', 'factory': 'edits', 'params': {'D': 2, 'first': f, 'K': 1}, 'timeout': 280, 'native_limit': 120})
+        return out
+    # thorough: every history of two edits with the element renderings compared as well, and histories of three edits whose
+    # middle edit is one of four that leave state behind for the third (rename, inline / kind change, index list edit).
+    # All 29^3 histories were measured at ~6100 s per first edit (2 of 29 completed, both confirmed): not affordable here.
+    core = [EDITS.index(x) for x in ('rename_table', 'toggle_ref_inline', 'kind_to_m2m', 'add_twin_index')]
     for f in range(len(EDITS)):
-        out.append({'name': f'edits/D{D}/first_{EDITS[f]}', 'factory': 'edits', 'params': {'D': D, 'first': f, 'K': 1, 'thorough_elements': not quick}, 'timeout': 280 if quick else 6000,
-                    'native_limit': 120})
+        out.append({'name': f'edits/D2/elements/first_{EDITS[f]}', 'factory': 'edits', 'params': {'D': 2, 'first': f, 'K': 1, 'thorough_elements': True},
+                    'timeout': 1500, 'native_limit': 120})
+    for f in range(len(EDITS)):
+        out.append({'name': f'edits/D3/first_{EDITS[f]}', 'factory': 'edits', 'params': {'D': 3, 'first': f, 'K': 1, 'thorough_elements': True, 'second': core},
+                    'timeout': 4000, 'native_limit': 200})
     return out
